@@ -27,6 +27,14 @@ unsafe impl Send for Eng {}
 static ENGINES: OnceLock<Eng> = OnceLock::new();
 
 fuzz_target!(|data: &[u8]| {
+    // libfuzzer-sys aborts inside its panic hook, before any catch_unwind of the oracles can classify the panic:
+    // replace the hook once (a panic that escapes the target still aborts in libfuzzer-sys's own wrapper)
+    static HOOK: std::sync::Once = std::sync::Once::new();
+    HOOK.call_once(|| std::panic::set_hook(Box::new(|info| eprintln!("panic: {info}"))));
+    // process-global switches of the code under test, reset at the top of every iteration
+    pest::set_call_limit(None);
+    pest::set_error_detail(false);
+    pest_meta::validator::verif::reset(usize::MAX);
     if data.len() < 2 || data.len() > 2048 {
         return;
     }
